@@ -88,20 +88,34 @@ class World:
 
     # ---- LLsolve ---------------------------------------------------------------------------------
     def scene_state(self, scene):
-        """physical state the lifting-line solve depends on, as stored in the scene *now*"""
+        """physical state the lifting-line solve depends on, as stored in the scene *now*.
+        key_mode 'earth': Earth-fixed velocity and wind separately.  'air': only their difference (C11, justified by the kernel lemma)."""
         st = []
+        air = self.key_mode == "air"
         for ap in scene._airplane_objects:
-            st += _flat(ap.v) + _flat(ap.w)
+            if not air:
+                st += _flat(ap.v)
+            st += _flat(ap.w)
             for seg in ap.segments:
                 st += _flat(seg._delta_flap) + _flat(seg._cp_c_f)
-        for name in ("_PC", "_dl", "_r_CG", "_u_a", "_u_n", "_u_s", "_v_wind", "_rho", "_nu", "_a"):
+        names = ["_PC", "_dl", "_r_CG", "_u_a", "_u_n", "_u_s", "_rho", "_nu", "_a"]
+        if not air:
+            names.append("_v_wind")
+        for name in names:
             st += _flat(getattr(scene, name))
+        if air:
+            for ap, sl in zip(scene._airplane_objects, scene._airplane_slices):
+                st += _flat(scene._v_wind[sl] - ap.v)
         for name in ("_P0", "_P1", "_P0_joint", "_P1_joint"):
             st += _flat(getattr(scene, name))
         # per-aircraft quantities used for the reference triad / coefficients
         for ap in scene._airplane_objects:
             st += _flat(ap.q) + _flat(ap.p_bar)
-            st += _flat(scene._get_wind(ap.p_bar)) + _flat(scene._get_density(ap.p_bar))
+            if air:
+                st += _flat(scene._get_wind(ap.p_bar) - ap.v)
+            else:
+                st += _flat(scene._get_wind(ap.p_bar))
+            st += _flat(scene._get_density(ap.p_bar))
         return [simp(zexpr(v)) for v in st]
 
     def solve(self, scene, kwargs):
@@ -351,10 +365,11 @@ def patch_classes():
         from symx.values import is_sym
         if is_sym(q):
             c = ctx()
-            key = tuple(simp(zexpr(comp)).get_id() for comp in q)
+            kexprs = [simp(zexpr(comp)) for comp in q]          # kept alive in the cache: z3 re-uses the ids of freed terms
+            key = tuple(e_.get_id() for e_ in kexprs)
             cache = c.__dict__.setdefault("_e2q_cache", {})
             if key in cache:
-                return cache[key]
+                return cache[key][1]
             e = None
             for comp in q:
                 t = zexpr(comp) * zexpr(comp)
@@ -368,9 +383,9 @@ def patch_classes():
                 qn = facade.wrap(np.array([SR(n) for n in names], dtype=object))
                 c.declare_unit([SR(n) for n in names])
                 c.notes.append("cut: euler_to_quat result named Qe!%d (unit norm proven from sin^2+cos^2=1)" % k)
-                cache[key] = qn
+                cache[key] = (kexprs, qn)
                 return qn
-            cache[key] = q
+            cache[key] = (kexprs, q)
         return q
     H.euler_to_quat = euler_to_quat
     SC.euler_to_quat = euler_to_quat
